@@ -60,7 +60,7 @@ _SM_RULE = ("rapid state machine (t.Repeat, about 30 steps per case) over one re
 
 CHECKS["C03"] = dict(
     pkg="c03", level="exploration",
-    props=[dict(name="TestPropMerkle", quick=240, thorough=16 * 1200, shards_quick=12, shards_thorough=16,
+    props=[dict(name="TestPropMerkle", quick=240, thorough=16 * 600, shards_quick=12, shards_thorough=16,
                 timeout_quick=900, timeout_thorough=7200)],
     rule=_SM_RULE + "C03 additionally requests admin.storeVerify and admin.storeMaint every 4th step and demands that "
          "maintenance changes nothing. Non-trivial = the graph has a mirror or a late-attached parent AND an edge-point "
@@ -79,7 +79,7 @@ CHECKS["C03"] = dict(
 
 CHECKS["C05"] = dict(
     pkg="c05", level="exploration",
-    props=[dict(name="TestPropRefusals", quick=300, thorough=16 * 1500, shards_quick=12, shards_thorough=16,
+    props=[dict(name="TestPropRefusals", quick=300, thorough=16 * 900, shards_quick=12, shards_thorough=16,
                 timeout_quick=900, timeout_thorough=7200)],
     rule=_SM_RULE + "C05 adds refusal candidates built from the model: node as its own parent, an edge that closes a cycle "
          "through live or deleted edges (also via detached parents), tombstone aimed at the root, first edge without node "
@@ -99,7 +99,7 @@ CHECKS["C05"] = dict(
 
 CHECKS["C06"] = dict(
     pkg="c06", level="exploration",
-    props=[dict(name="TestPropRebroadcast", quick=300, thorough=16 * 1500, shards_quick=12, shards_thorough=16,
+    props=[dict(name="TestPropRebroadcast", quick=300, thorough=16 * 900, shards_quick=12, shards_thorough=16,
                 timeout_quick=900, timeout_thorough=7200)],
     rule=_SM_RULE + "C06 oracle, for every accepted write: subjects seen on up.> between request and reply must include "
          "up.<a>.<node>[.<parent>] for the node itself and every ancestor (node points: through non-deleted edges; edge "
